@@ -123,12 +123,20 @@ pub fn run_one(args: &ShardArgs, rng: &mut Rng, rep: &mut Report, k: usize) {
 
 	// every path that spawns must honour the configuration and the hook: 0 = start only, 1 = restart,
 	// 2 = try_restart, 3 = try_restart_with_signal (old process exits in the grace period), 4 = same, forced at expiry
-	let respawn = if k % 3 == 2 { 1 + rng.usize(4) } else { 0 };
+	// 5 = stop, unset_spawn_hook, start: the second process must see nothing of the hook (its own settings then come from
+	// this process' environment, set before the runtime exists)
+	let respawn = if k % 3 == 2 { 1 + rng.usize(5) } else { 0 };
+	let hook_env = hook_env || respawn == 5;
 	let child_opts = match respawn {
 		0 => "--dump --exit-after 5 --no-overlap-probe",
 		4 => "--dump --exit-after 1500 --ignore --no-overlap-probe",
 		_ => "--dump --exit-after 1500 --on-signal any:0 --no-overlap-probe",
 	};
+	if respawn == 5 {
+		std::env::set_var("VCHILD_LOG", &log);
+		std::env::set_var("VCHILD_TAG", "c18");
+		std::env::set_var("VCHILD_OPTS", child_opts);
+	}
 	let rt = tokio::runtime::Builder::new_multi_thread().worker_threads(2).enable_all().build().expect("runtime");
 	let log2 = log.clone();
 	let wd = workdir.clone();
@@ -163,6 +171,11 @@ pub fn run_one(args: &ShardArgs, rng: &mut Rng, rep: &mut Report, k: usize) {
 				2 => {
 					job.try_restart();
 				}
+				5 => {
+					job.stop().await;
+					job.unset_spawn_hook();
+					job.start();
+				}
 				_ => {
 					job.try_restart_with_signal(watchexec_signals::Signal::Terminate, Duration::from_millis(60));
 				}
@@ -176,6 +189,11 @@ pub fn run_one(args: &ShardArgs, rng: &mut Rng, rep: &mut Report, k: usize) {
 		tokio::time::timeout(Duration::from_secs(5), task).await.ok();
 	});
 	rt.shutdown_timeout(Duration::from_millis(200));
+	if respawn == 5 {
+		for v in ["VCHILD_LOG", "VCHILD_TAG", "VCHILD_OPTS"] {
+			std::env::remove_var(v);
+		}
+	}
 
 	rep.eval();
 	let mut h = Fnv::default();
@@ -192,7 +210,7 @@ pub fn run_one(args: &ShardArgs, rng: &mut Rng, rep: &mut Report, k: usize) {
 	let want_spawns = if respawn == 0 { 1 } else { 2 };
 	rep.count("spawn_paths_exercised", 1);
 	if respawn > 0 {
-		rep.count(["", "respawn_via_restart", "respawn_via_try_restart", "respawn_via_graceful_continuation", "respawn_via_grace_expiry"][respawn], 1);
+		rep.count(["", "respawn_via_restart", "respawn_via_try_restart", "respawn_via_graceful_continuation", "respawn_via_grace_expiry", "respawn_after_unset_spawn_hook"][respawn], 1);
 	}
 	if dumps.len() < want_spawns {
 		rep.violation(
@@ -203,7 +221,12 @@ pub fn run_one(args: &ShardArgs, rng: &mut Rng, rep: &mut Report, k: usize) {
 		return;
 	}
 	for (di, d) in dumps.iter().enumerate() {
-	let path_name = if di == 0 { "start" } else { ["", "restart", "try_restart", "graceful-continuation", "grace-expiry"][respawn] };
+	let path_name = if di == 0 { "start" } else { ["", "restart", "try_restart", "graceful-continuation", "grace-expiry", "start-after-unset-hook"][respawn] };
+	// after unset_spawn_hook the hook must not run any more: neither its variable nor its directory
+	if respawn == 5 && di > 0 && hook_cwd && d.cwd == workdir.display().to_string().into_bytes() {
+		rep.violation("C18/hook/stale-cwd", "the process started after unset_spawn_hook still ran in the directory the removed hook used to set", json!({"path": path_name}));
+	}
+	let (hook_env, hook_cwd) = if respawn == 5 && di > 0 { (false, false) } else { (hook_env, hook_cwd) };
 	let wit = || json!({"shell_mode": shell_mode, "wrap": (["plain", "grouped", "session"][wrap as usize]), "grouped_also_set": both, "expected_argv": show(&expected_argv), "observed_argv": show(&d.argv)});
 	if d.argv != expected_argv {
 		let class = if d.argv.len() != expected_argv.len() { "count" } else { "content" };
